@@ -8,6 +8,9 @@ set_option linter.unusedSimpArgs false
 namespace Hyp.Score
 open Hyp Hyp.SetOps Hyp.SetSpec
 
+-- any BM25 parameters (`K1`, `B` of the loop, `K1` of `query_weight`): the formulas hold for all of them
+variable [Bm25 ℝ]
+
 /-- the map `_search_wids` produces for one word id -/
 noncomputable def termMap (k : Kind) (s : State) (w : Nat) : WMap ℝ :=
   match k with
@@ -74,8 +77,7 @@ theorem idf_eq (T : Table) (n : Nat) (hn : n = ScoreSpec.df T w) :
     (idf n (numDocs T) : ℝ) = ScoreSpec.idf T w := by
   subst hn; rfl
 
-theorem b_eq : (Score.b : ℝ) = ScoreSpec.b := by
-  unfold Score.b ScoreSpec.b; simp; norm_num
+theorem b_eq : (Score.b : ℝ) = ScoreSpec.b := rfl
 
 /-- weight · stored value = the docstring's summand -/
 theorem wt_mul_val (k : Kind) (s : State) (h : Inv s) (ws : List Nat) (w : Nat) :
